@@ -47,6 +47,8 @@ def rand_trusted_tree(rng, ids, depth, valid, inside_inline=False):
         r_ = {"k": k, "s": payload(rng, ids, "h" if k == "html" else "o")}
         if k == "obj" and rng.random() < 0.3:
             r_["late"] = True   # its markup changes between being added and being rendered
+        elif k == "obj" and rng.random() < 0.3:
+            r_["iterable"] = True   # a data-frame-like object: self-rendering AND iterable
         return r_
     if r < 0.45:
         name = rng.choice(["script", "style"])
